@@ -15,6 +15,9 @@ CHECKS = {
  "C03": dict(engine="E1 input-space enumerator", technique="bounded exhaustive enumeration of <=k token edits inside each victim body on the real parser; invariant on every damaged parse",
    text="For every seed file, every definition with a brace-delimited body and every sequence of <=k edits (insert/delete/replace over the 65-symbol non-opening alphabet, brace-balanced results only) the real parser must keep all other definitions (kind, name, text, order) and place every syntax error inside the damaged region.",
    note="k=1 on all seeds, k=2 on the two compact seed files (thorough). Seeds must be error-free (guarded).", ref="5/C03"),
+ "C04": dict(engine="E2 grammar/derivation enumerator", technique="bounded exhaustive enumeration of derivations of a reference grammar (full product at depth 1, every production/slot/sub-derivation chain beyond) x layouts, plus complete operator tables; each program parsed by the real parser and read back through the typed accessors; compared with the generated AST",
+   text="Every program of the reference grammar up to the depth bound, printed in up to five layouts (spaces, tight, one token per line, comments between all tokens, doc comments), must parse with zero syntax errors and the tree read through syntax::ast accessors must equal the AST it was printed from; all 23x23 operator pairs, all triples over one representative per precedence level and prefix/postfix operands are compared with reference precedence climbing.",
+   note="Depth 1 (full product over leaves, all five layouts) quick; depth 2 (1.8 million programs) thorough. Excluded from the grammar (named in DESIGN.md): chained tuple index x.0.1, 'x as y' on a bare variable, 'as' after a string-prefix pattern, negative literal patterns, bit-array contents. The operator of a BINARY_OP is read as raw token.", ref="5/C04"),
  "C06": dict(engine="E3 query sweeper", technique="bounded exhaustive enumeration of single-edit workspace variants x every identifier occurrence on the real Analysis API; relational invariant between references, goto_definition and highlight_related",
    text="For every base workspace, every single-token edit variant and every pathological shape, at EVERY identifier occurrence the three real answers are compared: references listed = occurrences whose goto leads to the declaration, declaration's own name included, no duplicates, same set from every listed occurrence, highlight = references in the file.",
    note="No hand-written expectations: the oracle is a relation between real answers. Workspaces: 3 bases (6 modules, 2 packages) + 30 pathological shapes; generated scoping programs are added by C05's generator.", ref="5/C06"),
